@@ -99,6 +99,9 @@ def main():
         except Exception as ex:
             have_oracle = False
             build_log += "\noracle failure: %r" % (ex,)
+            # never pass on the proofs alone: without the oracle the correspondence did not run
+            verdict.violation({"kind": "machinery failure: the extracted oracle could not be run",
+                               "input": None, "error": repr(ex)}, concrete=False)
     n_model_diff = n_spec_diff = 0
     samples = []
     hist = {"julian": 0, "orthodox": 0, "western": 0, "invalid_method": 0, "out_of_documented_range": 0}
@@ -121,6 +124,27 @@ def main():
         if k % 2999 == 0 and model_res is not None:
             samples.append({"year": y, "method": m, "impl": impl_res[k], "model": model_res[k],
                             "spec": spec_res[k]})
+    # method values that are not integers are outside the Z-typed model: the property text
+    # ("any other method value raises ValueError") is checked on the implementation directly
+    n_nonint = 0
+    for bad in (2.5, 1.5, 0.5, 3.5, float("nan"), float("inf"), None, "3", "western", (3,), [1], 10**30, -10**30):
+        for y in (1583, 2024, 4099):
+            n_nonint += 1
+            try:
+                from dateutil import easter as _E
+                r = _E.easter(y, bad)
+                verdict.violation({"kind": "invalid method value accepted", "input": {"year": y, "method": repr(bad)},
+                                   "impl": [r.year, r.month, r.day]})
+            except ValueError:
+                pass
+            except Exception as ex:
+                verdict.violation({"kind": "invalid method value raises %s, not ValueError" % type(ex).__name__,
+                                   "input": {"year": y, "method": repr(bad)}})
+    # integer-valued non-int spellings must behave like the integer
+    for good, m in ((True, 1), (2.0, 2), (3.0, 3)):
+        if impl(2024, good) != impl(2024, m):
+            verdict.violation({"kind": "integer-valued method spelling differs", "input": {"year": 2024, "method": repr(good)}})
+
     # default method (glue around the core)
     if build_err is None and have_oracle:
         import inspect
@@ -161,6 +185,7 @@ def main():
         "exhaustive": True,
         "samples": samples[:12],
         "input_distribution": hist,
+        "non_integer_method_values_checked_on_impl_only": n_nonint,
         "model_vs_impl_disagreements": n_model_diff,
         "spec_vs_impl_disagreements_in_domain": n_spec_diff,
         "model_tie": "model regenerated from /repo/src/dateutil/easter.py by harness/gen_easter.py on this run; "
